@@ -39,9 +39,24 @@ let tok_of_nlist (l : n list) : string =
 
 let ni s = n_of_int (int_of_string s)
 
+let z_of_int (i : int) : z =
+  if i = 0 then Z0 else if i > 0 then Zpos (pos_of_int i) else Zneg (pos_of_int (-i))
+let int_of_z (x : z) : int = match x with Z0 -> 0 | Zpos p -> int_of_pos p | Zneg p -> - (int_of_pos p)
+
+(* generic int-stream entry points: "run <name> <int> ..." -> ints *)
+let runners : (string * (z list -> z list)) list = [
+  ("queue", run_queue);
+]
+
 (* ---------- dispatch ---------- *)
 let handle (toks : string list) : string =
   match toks with
+  | "run" :: name :: args -> (
+      match List.assoc_opt name runners with
+      | None -> "ERR unknown runner " ^ name
+      | Some f ->
+          String.concat " " (List.map (fun x -> string_of_int (int_of_z x))
+                               (f (List.map (fun a -> z_of_int (int_of_string a)) args))))
   | [ "valid"; a ] -> tok_of_bool (is_address_valid (ni a))
   | [ "lvl2addr"; l ] -> string_of_int (int_of_n (lvl_2_addr (ni l)))
   | [ "consts"; a ] -> (
